@@ -44,19 +44,22 @@ Definition to_json (dmax : N) (fold : option N) (prefix : list N) (cells : list 
   ++ jemit_all dmax 0 true (jfill fold prefix cells (map (jbucket0 prefix) (anseq 0 (S (N.to_nat dmax)))))
   ++ [10] ++ prefix ++ [125].
 
+Definition st_json_elem (p1 p2 d1 d2 : N) (fold : option N) (e : list cell * list cell) : list N :=
+  [123; 10; 32; 32; 34; p1; 34; 58; 32] ++ to_json d1 fold [32; 32] (fst e)
+  ++ [44; 10; 32; 32; 34; p2; 34; 58; 32] ++ to_json d2 fold [32; 32] (snd e) ++ [10; 125].
+
+Fixpoint st_json_go (p1 p2 d1 d2 : N) (fold : option N) (first : bool) (l : list (list cell * list cell)) : list N :=
+  match l with
+  | [] => if first then [] else [44; 10]
+  | e :: t => (if first then [] else [44; 10]) ++ st_json_elem p1 p2 d1 d2 fold e ++ st_json_go p1 p2 d1 d2 fold false t
+  end.
+
+Definition st_json_last (p1 p2 d1 d2 : N) : list N :=
+  [123; 32; 34; p1; 34; 58; 32; 123; 32; 34] ++ adec d1 ++ [34; 58; 32; 91; 93; 32; 125; 44; 32; 34; p2; 34; 58; 32; 123; 32; 34]
+  ++ adec d2 ++ [34; 58; 32; 91; 93; 32; 125; 32; 125].
+
 Definition st_to_json (p1 p2 d1 d2 : N) (fold : option N) (l : list (list cell * list cell)) : list N :=
-  let elem (e : list cell * list cell) :=
-    [123; 10; 32; 32; 34; p1; 34; 58; 32] ++ to_json d1 fold [32; 32] (fst e)
-    ++ [44; 10; 32; 32; 34; p2; 34; 58; 32] ++ to_json d2 fold [32; 32] (snd e) ++ [10; 125] in
-  [91; 10]
-  ++ (fix go (first : bool) (l : list (list cell * list cell)) : list N :=
-        match l with
-        | [] => if first then [] else [44; 10]
-        | e :: t => (if first then [] else [44; 10]) ++ elem e ++ go false t
-        end) true l
-  ++ [123; 32; 34; p1; 34; 58; 32; 123; 32; 34] ++ adec d1 ++ [34; 58; 32; 91; 93; 32; 125; 44; 32; 34; p2; 34; 58; 32; 123; 32; 34]
-  ++ adec d2 ++ [34; 58; 32; 91; 93; 32; 125; 32; 125]
-  ++ [10; 93; 10].
+  [91; 10] ++ st_json_go p1 p2 d1 d2 fold true l ++ st_json_last p1 p2 d1 d2 ++ [10; 93; 10].
 
 (** ---------- reader: serde_json::from_str on a SUBSET of JSON, then from_json_aladin_internal ----------
     The subset ([JOut] = outside, no claim): ASCII documents made of the six punctuation characters, the
